@@ -353,6 +353,94 @@ pub fn run(ctx: &mut Ctx) {
         }
     }
     huginn_net_tcp::verif_hooks::clock::clear();
+    replays_and_duplicates(ctx);
+}
+
+/// Two more shapes of use the traces above do not have.
+///
+/// (a) one capture thread that uses several pools one after the other -- worker counts going down
+/// and up -- for the same short capture of ONE connection whose last frame comes from the same
+/// endpoint as its first (handshake, exchange, final client ACK): each pool's results are the
+/// sequential ones, whatever pool the thread fed before.
+///
+/// (b) traces in which some frames occur twice back to back, byte for byte (a retransmitted SYN
+/// of a host without timestamps, a capture on a mirror port): the sequential analyzer reports
+/// for every frame it is given, and so must the pool.
+fn replays_and_duplicates(ctx: &mut Ctx) {
+    if ctx.miri() {
+        return;
+    }
+    let n = ctx.scale(60, 1_200, 2);
+    for t in 0..n {
+        if !ctx.mine(t) || ctx.rep.violation_count > 40 {
+            continue;
+        }
+        let mut r = ctx.rng_global(1010, t);
+        // ---- (a)
+        let kind_c = *r.pick(&[Kind::Http1, Kind::Tls, Kind::Http1]);
+        let ep = crate::pkt::Endpoints::v4([10, 77, (t >> 8) as u8, t as u8], 1025 + r.u16() % 60000, [172, 31, 0, 1 + r.u8() % 200], if kind_c == Kind::Tls { 443 } else { 80 });
+        let conn = scenario::gen_conn_ep(&mut r, 900_000 + t, kind_c, scenario::T0, Some(ep.clone()));
+        let mut one: Vec<TFrame> = conn.frames.iter().map(|(at, f)| TFrame { at_ms: *at, conn: 0, frame: f.clone() }).collect();
+        if let Some(first) = one.first().cloned() {
+            // a last frame from the endpoint that sent the first one: the SYN's sender acknowledges
+            // (a copy of the first frame with the ACK flag instead of SYN would need the script;
+            // a bare client ACK built from the same endpoints does)
+            let mut s = crate::pkt::Script::new(ep.clone(), crate::pkt::Link::Ethernet, 7, 9);
+            let f = s.seg(true, 0x7000_0000, 0x6000_0000, crate::pkt::flags::ACK, vec![], &[]);
+            one.push(TFrame { at_ms: first.at_ms, conn: 0, frame: f });
+        }
+        for kind in [PoolKind::Http, PoolKind::Tls, PoolKind::Tcp] {
+            let started = std::time::Instant::now();
+            let Ok(seq) = sequential(kind, &one, false, |_| scenario::T0) else { continue };
+            let counts: Vec<usize> = if r.chance(1, 2) { vec![16, 7, 3, 2, 1, 5, 16] } else { vec![13, 4, 64, 2, 9] };
+            for workers in counts {
+                let cfg = PoolCfg { workers, queue: one.len() + 8, batch: 4, timeout_ms: 1, max_conn: 64, with_db: false };
+                huginn_net_tcp::verif_hooks::clock::set_ms(scenario::T0);
+                match parallel(kind, &cfg, &one, false, 0, 0) {
+                    Ok(par) => {
+                        if started.elapsed().as_secs() >= 15 {
+                            ctx.inconclusive("replay run exceeded 15 s of wall time");
+                        } else {
+                            compare(ctx, kind, &cfg, "one-connection-replayed-to-pools-of-changing-size", &seq, &par, t, &one);
+                        }
+                    }
+                    Err(e) => {
+                        ctx.judge(false, &[], "worker pool could not be created", || json!({"error": e}));
+                    }
+                }
+            }
+        }
+        // ---- (b)
+        let nc = 4 + r.usize(12);
+        let (_c, trace) = gen_trace(&mut r, nc, 5_000_000 + t * 64);
+        let mut dup: Vec<TFrame> = Vec::new();
+        for f in trace {
+            let twice = f.conn != usize::MAX && r.chance(1, 6);
+            dup.push(f.clone());
+            if twice {
+                dup.push(f);
+            }
+        }
+        for kind in [PoolKind::Tcp, PoolKind::Http, PoolKind::Tls] {
+            let started = std::time::Instant::now();
+            let Ok(seq) = sequential(kind, &dup, false, |_| scenario::T0) else { continue };
+            let cfg = PoolCfg { workers: 1 + r.usize(8), queue: dup.len() + 8, batch: *r.pick(&[1usize, 4, 32]), timeout_ms: 1, max_conn: 4096, with_db: false };
+            huginn_net_tcp::verif_hooks::clock::set_ms(scenario::T0);
+            match parallel(kind, &cfg, &dup, false, r.next_u64(), 0) {
+                Ok(par) => {
+                    if started.elapsed().as_secs() >= 15 {
+                        ctx.inconclusive("duplicate-frame run exceeded 15 s of wall time");
+                    } else {
+                        compare(ctx, kind, &cfg, "frames-duplicated-back-to-back", &seq, &par, t, &dup);
+                    }
+                }
+                Err(e) => {
+                    ctx.judge(false, &[], "worker pool could not be created", || json!({"error": e}));
+                }
+            }
+        }
+    }
+    huginn_net_tcp::verif_hooks::clock::clear();
 }
 
 fn pcap_mode(ctx: &mut Ctx, r: &mut Rng, t: u64, trace: &[TFrame]) {
@@ -432,6 +520,7 @@ pub fn spec() -> PropSpec {
         shards: super::shards_8_16,
         rule: "seeded traces of 10..200 complete connections (handshakes with timestamps, multi-segment ClientHellos, HTTP/1.x and HTTP/2 exchanges in both directions, garbage, with UDP / ICMP datagrams and truncated TCP segments of the same hosts in between) are analysed sequentially and by the TCP, HTTP and TLS worker pools under varied worker counts (1..16), batch sizes {1,2,32}, timeouts {1,10} ms and seeded yield/sleep/spin perturbation at the hook points; after logical drain the result multisets and the per-connection (TCP: per-sender) orders are compared; a lock-step mode compares uptime estimates through the TCP pool; the parallel analyze_pcap entry of the TCP analyzer is compared with its sequential one; a bucket is a distinct (pool, mode, workers, batch, timeout) configuration or a distinct result-arrival order observed",
         assumptions: &[
+            "two further shapes: one single-connection capture replayed from one thread to pools of changing size; traces in which one frame in six occurs twice back to back",
             "queue size exceeds the trace length (free-running), or frames are dispatched one at a time and awaited at the WorkerProcessed point (lock-step, also with queues of 2..6 on pools built by the analyzers' with_config + init_pool, connection capacity 4096); a run in which any dispatch is not queued, or which does not drain within 30 s, is inconclusive",
             "free-running runs freeze the virtual clock (uptime estimation then yields nothing in both modes); lock-step runs advance it per frame",
             "Ethernet and raw-IP framing only (the TLS pool drops loopback-framed frames at dispatch by design of its hash)",
